@@ -227,7 +227,7 @@ def t_pipeline(sess, system, n_grains):
     stats, geo, utils = mods["stats"], mods["geometry"], mods["utils"]
     sess.encode(stats.misorientation_hist, geo.misorientation_angles)
     sess.assume_env("Rotation.from_matrix(A).as_quat() returns the unit quaternions supplied by the harness (scalar-last, q == -q); arccos is strictly decreasing on [0, 1]; np.histogram receives the data unchanged")
-    sess.outside_claim("histogram binning, the theoretical density and the index value itself; Pool.imap ordering")
+    sess.outside_claim("histogram binning for large textures (np.histogram by contract); the index formula, the theoretical density and the batched variant have their own tasks; Pool.imap ordering is its documented contract")
     sysm = getattr(geo.LatticeSystem, system)
     N = n_grains
     captured = {}
